@@ -139,6 +139,15 @@ func c02(r *report.Run) {
 		"I in [-(-1), 5]", "I in [- -1, 3]", "I not in [-(+(-1))]", "I in [-1, 1]", "I in [+1, -(-(-1))]", "I in [1 - 2, 0 - -1]", "I in [-0]", `S in ["a" + "b", "c"]`, "I in [1, 1, 1]", "I not in [+(+(1))]"} {
 		raw = append(raw, chain)
 	}
+	// pairs of different composite constants in one program (the constant pool must keep them apart)
+	comps := []string{`[1, 2]`, `["1", "2"]`, `["1 2"]`, `[1.0, 2.0]`, `["a b"]`, `["a", "b"]`, `[""]`, `["", ""]`, `[" "]`, `[12]`, `["12"]`, `[1, 2, 3]`, `[true]`, `["true"]`, `1..2`, `[nil]`, `["<nil>"]`}
+	for _, c1 := range comps {
+		for _, c2 := range comps {
+			if c1 != c2 {
+				raw = append(raw, fmt.Sprintf("[%s, %s]", c1, c2), fmt.Sprintf("[X in %s, X in %s, len(%s) + len(%s)]", c1, c2, c1, c2))
+			}
+		}
+	}
 	var rawRuns int64
 	for i, src := range raw {
 		for _, m := range []string{"struct", "noenv"} {
@@ -160,6 +169,7 @@ func c02(r *report.Run) {
 				env.F = []float64{9007199254740992, 0.1, 1e16}[vi]
 				env.F32 = []float32{16777216, 0.1, 3e7}[vi]
 				env.I64, env.U8, env.I8 = int64(iv), uint8(200), int8(100)
+				env.X = []interface{}{"a b", 1, "1 2"}[vi]
 				a, ea := lib.Run(pN, *env)
 				b, eb := lib.Run(pO, *env)
 				rawRuns += 2
